@@ -584,6 +584,20 @@ def e2e_requests(tier, rng):
     return reqs
 
 
+# host histories with ABANDONED transfers: ("abandon", wValue, wLength, k, extra) = SETUP GET_DESCRIPTOR, k data packets read and
+# ACKed, optionally one more packet received but NOT acknowledged, then no status stage -- the next SETUP arrives while the request
+# handler is still in its GET_DESCRIPTOR state; ("vendor",) = a vendor SETUP that nobody follows up.  Every following plain
+# (wValue, wLength) request must be served from offset 0 again.
+E2E_ABANDON = [("abandon", (0x22 << 8) | 0, 1024, 1, False), ((0x22 << 8) | 0, 1024),
+               ("abandon", (0x22 << 8) | 0, 1024, 2, True), ((3 << 8) | 1, 128),
+               ("abandon", (3 << 8) | 1, 255, 1, False), ("vendor",), ((2 << 8) | 0, 255),
+               ("abandon", (0x21 << 8) | 0, 1000, 2, False), ((1 << 8) | 0, 18),
+               ("abandon", (0x22 << 8) | 0, 1024, 3, False), ("abandon", (0x21 << 8) | 0, 130, 1, True), ((0x22 << 8) | 2, 70)]
+E2E_ABANDON_MUX = [("abandon", (0x30 << 8) | 0, 255, 1, False), ((3 << 8) | 0xEE, 255),
+                   ("abandon", (0x22 << 8) | 0, 1024, 2, False), ((0x30 << 8) | 0, 255),
+                   ("abandon", (0x30 << 8) | 0, 255, 1, True), ("vendor",), ((1 << 8) | 0, 64)]
+
+
 def e2e_run(avoid_blockram, reqs, runtime=()):
     """Drive a full USBDevice (standard control endpoint) over UTMI with LUNA's own host-side helpers; for every request
     return the data packets received and whether the data stage was STALLed (or the exception that ended it)."""
@@ -636,21 +650,53 @@ def e2e_run(avoid_blockram, reqs, runtime=()):
                 raise RuntimeError(f"status stage answered with {hs}")
             return pkts, False
 
+        def abandon_stage(self, value, wlen, k, extra_unacked):
+            """SETUP + k acknowledged data packets (+ one packet received but not acknowledged), then nothing."""
+            yield from self.setup_transaction(0x80, 6, value, 0, wlen)
+            yield from self.control_interphase_delay()
+            pkts = []; naks = 0
+            while len(pkts) < k:
+                pid, packet = yield from self.in_transaction(endpoint=0)
+                if pid == USBPacketID.NAK:
+                    naks += 1
+                    if naks > 50: raise RuntimeError("device keeps NAKing the data stage")
+                    continue
+                if pid == USBPacketID.STALL:
+                    return pkts, True
+                pkts.append(list(packet))
+            if extra_unacked:
+                yield from self.send_token(USBPacketID.IN, endpoint=0)
+                yield from self.receive_packet()          # ... and the host stays silent: no handshake
+                yield from self.interpacket_delay()
+                yield from self.interpacket_delay()
+            return pkts, False
+
         @usb_domain_test_case
         def test_stages(self):
-            for value, wlen in reqs:
+            for rq in reqs:
                 try:
-                    pkts, stalled = yield from self.read_stage(value, wlen)
-                    results.append((value, wlen, pkts, stalled, None))
+                    if rq[0] == "abandon":
+                        _, value, wlen, k, extra = rq
+                        pkts, stalled = yield from self.abandon_stage(value, wlen, k, extra)
+                        results.append((value, wlen, pkts, stalled, None, "abandon"))
+                    elif rq[0] == "vendor":
+                        yield from self.setup_transaction(0xC0, 0x55, 0x1234, 0, 8)
+                        yield from self.control_interphase_delay()
+                        results.append((0, 0, [], False, None, "vendor"))
+                    else:
+                        value, wlen = rq
+                        pkts, stalled = yield from self.read_stage(value, wlen)
+                        results.append((value, wlen, pkts, stalled, None, "full"))
                 except Exception as e:          # the device misbehaved on the wire: report and stop
-                    results.append((value, wlen, [], False, f"{type(e).__name__}: {e}"))
+                    v, w = (rq[1], rq[2]) if rq[0] == "abandon" else ((0, 0) if rq[0] == "vendor" else rq)
+                    results.append((v, w, [], False, f"{type(e).__name__}: {e}", "full"))
                     return
 
     suite = unittest.defaultTestLoader.loadTestsFromTestCase(C09EndToEnd)
     with open(os.devnull, "w") as null:
         r = unittest.TextTestRunner(stream=null, verbosity=0).run(suite)
     if (r.errors or r.failures) and not any(x[4] for x in results):
-        results.append((0, 0, [], False, "host-side harness failed: " + (r.errors + r.failures)[0][1][-300:]))
+        results.append((0, 0, [], False, "host-side harness failed: " + (r.errors + r.failures)[0][1][-300:], "full"))
     return results
 
 
@@ -660,35 +706,50 @@ E2E_MUX_REQS = [((3 << 8) | 0xEE, 255), ((1 << 8) | 0, 64), ((0x30 << 8) | 0, 25
 
 
 def e2e_check(tier, rng, bdir, cov):
-    reqs = e2e_requests(tier, rng)
+    reqs = e2e_requests(tier, rng) + E2E_ABANDON
     variants = [("e2e_device_block", False, (), reqs, "block ROM handler"),
                 ("e2e_device_distributed", True, (), reqs, "LUNA_AVOID_BLOCKRAM (distributed) handler"),
-                ("e2e_device_mux", False, E2E_RUNTIME, E2E_MUX_REQS,
+                ("e2e_device_mux", False, E2E_RUNTIME, E2E_MUX_REQS + E2E_ABANDON_MUX,
                  "GetDescriptorHandlerMux: block ROM handler + distributed handler for two runtime descriptors; request sequence "
                  "runtime -> ROM -> runtime -> ROM -> STRING 0 -> absent -> ROM -> runtime")]
+    prefix_def = ("Fixpoint pkts_prefixb (a b : list (list N)) : bool := match a, b with [] , _ => true "
+                  "| x :: a', y :: b' => bytes_eqb x y && pkts_prefixb a' b' | _ :: _, [] => false end.\n"
+                  "Definition prefix_code (c : dcoll) (mps value wlen : N) (pkts : list (list N)) (stalled : bool) : N :=\n"
+                  "  let (ps, st) := data_stage 4096 (respond c mps value wlen) mps wlen 0 0 in\n"
+                  "  if pkts_prefixb pkts ps && (if stalled then st else true) then 0 else 1.\n")
     for name, avoid, runtime, rq, what in variants:
         coll = coq_coll(E2E + list(runtime))
         res = e2e_run(avoid, rq, runtime)
-        defs = f"Definition co := {coll}.\n"
-        codes = "[" + "; ".join(f"stage_code co 64 {v} {w} {_coq_pkts(pk)} {'true' if st else 'false'}" for v, w, pk, st, err in res if not err) + "]"
+        defs = f"Definition co := {coll}.\n" + prefix_def
+        checked = [r for r in res if not r[4] and r[5] != "vendor"]
+        codes = "[" + "; ".join(f"{'stage_code' if kind == 'full' else 'prefix_code'} co 64 {v} {w} {_coq_pkts(pk)} {'true' if st else 'false'}"
+                                for v, w, pk, st, err, kind in checked) + "]"
         out = core.coq_eval(bdir, "E2E_C09_" + name[11:], tie.HEADER + TIE_IMPORTS, defs, [("codes", codes)])
         bad = core.parse_nums(out["codes"]) if out["codes"].strip() != "[]" else []
         cov["correspondence"].append(dict(obligation=name, target="USBDevice + standard control endpoint", traces=len(res), cycles=0,
                                           describe=f"whole device ({what}) driven over UTMI by LUNA's host-side test helpers: packets of each "
                                                    f"GET_DESCRIPTOR data stage == data_stage over respond (start_position bookkeeping of "
-                                                   f"StandardRequestHandler included)"))
+                                                   f"StandardRequestHandler included), also directly after ABANDONED transfers (1..3 data packets "
+                                                   f"ACKed, optionally one more un-ACKed, no status stage, optionally a vendor SETUP in between): "
+                                                   f"the next GET_DESCRIPTOR must again deliver the first min(wLength,len) bytes"))
         k = 0
-        for v, w, pk, st, err in res:
+        for idx, (v, w, pk, st, err, kind) in enumerate(res):
+            if kind == "vendor" and not err:
+                continue
             failed = bool(err) or bool(bad[k] if k < len(bad) else 0)
             if not err: k += 1
             if failed:
                 return dict(property=PID, obligation=name, target="USBDevice", confirmed_on_pysim=True,
-                            reason=("GET_DESCRIPTOR data stage differs from the specification" if not err else
-                                    "the device misbehaved on the wire during a GET_DESCRIPTOR: " + err),
+                            reason=(("GET_DESCRIPTOR data stage differs from the specification" if kind == "full" else
+                                     "the packets of an (abandoned) GET_DESCRIPTOR data stage are not a prefix of the specified ones")
+                                    if not err else "the device misbehaved on the wire during a GET_DESCRIPTOR: " + err),
                             inputs=[dict(wValue=v, wLength=w, avoid_blockram=avoid, descriptors=E2E, runtime_descriptors=list(runtime),
-                                         requests_so_far=[(a, b) for a, b, *_ in res])],
+                                         host_history=[list(x) if isinstance(x, tuple) else x for x in rq[:idx + 1]])],
                             outputs=[dict(packets=pk, stalled=st)],
-                            how="full USBDevice simulated with Amaranth's simulator, host side = luna.gateware.test.usb2.USBDeviceTest")
+                            how="full USBDevice simulated with Amaranth's simulator, host side = luna.gateware.test.usb2.USBDeviceTest; "
+                                "host_history lists the requests in order: [wValue, wLength] = complete control transfer, "
+                                "['abandon', wValue, wLength, k, extra] = k data packets ACKed (+1 un-ACKed if extra) and no status stage, "
+                                "['vendor'] = vendor SETUP without follow-up")
     return None
 
 
